@@ -2,7 +2,10 @@ package props
 
 import (
 	"fmt"
+	"github.com/evanoberholster/imagemeta"
+	"github.com/rs/zerolog"
 	"image"
+	"io"
 	"runtime"
 	"sort"
 	"strings"
@@ -36,7 +39,7 @@ func (e *C05) ID() string      { return "C05" }
 func (e *C05) Level() string   { return "exploration" }
 func (e *C05) NeedsRace() bool { return true }
 func (e *C05) Rule() string {
-	return "each case is one round in a -race build: N in {2,8,16,64} goroutines are released by a barrier under GOMAXPROCS in {1,2,4,16,32}; each performs 3-10 seeded calls on its own reader/image drawn from: every decode/scan/parse/sniff entry point on sample and generated files of every container (also truncated and structure-mutated ones: error paths), TIFFs carrying fresh OffsetTime strings (distinct offsets, and equal offsets spelled differently such as +00:00/-00:00, +05:00/+04:60) so that several calls miss the zone cache at once (the cache and all pools are reset before the round), the four perceptual hashes, NewAHash and EncodeBlurHashFast on 64x64/256x256 images of four kinds. Readers yield (runtime.Gosched or a microsecond sleep) at seeded Read calls, the natural suspension points of this library. Oracles: the Go race detector (reports parsed from its log, de-duplicated by the innermost imagemeta frame pair; a report with no imagemeta frame is the harness's own and makes the run inconclusive); every call's canonical observation must equal the observation of the same call run alone on pristine state (computed sequentially in the same binary); a panic is a crash; a round in which no call completes for 120 s while the process is CPU-idle is a deadlock. SetLogger is not called (configuration is outside the property). Non-trivial: a round with >= 2 calls overlapping in time; distinct = distinct overlap signatures (multiset of call kinds in flight when a call starts, from one atomic event sequence at the client boundary)."
+	return "each case is one round in a -race build: N in {2,8,16,64} goroutines are released by a barrier under GOMAXPROCS in {1,2,4,16,32}; each performs 3-10 seeded calls on its own reader/image drawn from: every decode/scan/parse/sniff entry point on sample and generated files of every container (also truncated and structure-mutated ones: error paths), TIFFs carrying fresh OffsetTime strings (distinct offsets, and equal offsets spelled differently such as +00:00/-00:00, +05:00/+04:60) so that several calls miss the zone cache at once (the cache and all pools are reset before the round), the four perceptual hashes, NewAHash and EncodeBlurHashFast on 64x64/256x256 images of four kinds. Readers yield (runtime.Gosched or a microsecond sleep) at seeded Read calls, the natural suspension points of this library. Oracles: the Go race detector (reports parsed from its log, de-duplicated by the innermost imagemeta frame pair; a report with no imagemeta frame is the harness's own and makes the run inconclusive); every call's canonical observation must equal the observation of the same call run alone on pristine state (computed sequentially in the same binary, after the round, so that nothing is warmed up before its first concurrent use); a panic is a crash; a round in which no call completes for 120 s while the process is CPU-idle is a deadlock. SetLogger is never called while calls are in flight (configuration is outside the property); a quarter of the rounds set trace-level loggers with a discarding writer before the round starts, so that the formatting code behind the log statements also runs concurrently. Non-trivial: a round with >= 2 calls overlapping in time; distinct = distinct overlap signatures (multiset of call kinds in flight when a call starts, from one atomic event sequence at the client boundary)."
 }
 func (e *C05) Assumptions() []string {
 	return []string{
@@ -256,33 +259,48 @@ func (e *C05) Run(c *core.Ctx, idx int) {
 			total++
 		}
 	}
-	// sequential goldens on pristine state (cached per worker: keys identify the input exactly)
+	// a quarter of the rounds run with the loggers configured beforehand (trace level, a
+	// goroutine-safe discarding writer): configuration is not concurrent, the logging the decoders
+	// then do is - tag and directory names are formatted from many goroutines at once
+	captureDefaults()
+	logging := idx%4 == 3
+	if logging {
+		imagemeta.SetLogger(io.Discard, zerolog.TraceLevel)
+		for _, gs := range calls {
+			for _, cl := range gs {
+				cl.key = "log|" + cl.key
+			}
+		}
+		c.Rec.Count("rounds_with_trace_logging", 1)
+	}
+	defer restoreDefaults()
+	// sequential goldens on pristine state (cached per worker: keys identify the input exactly).
+	// They are taken AFTER the concurrent round: whatever the library initialises lazily on first
+	// use (the zone cache is reset by a hook, but a cache this harness does not know about is not)
+	// must meet its first use under concurrency, not be warmed up by a sequential pass.
 	old := runtime.GOMAXPROCS(0)
 	noYield := func() {}
-	for _, gs := range calls {
-		for _, cl := range gs {
-			if _, ok := e.golden[cl.key]; ok {
-				continue
-			}
-			resetAll()
-			var o string
-			if pk, key, text := core.Guard(func() { o = cl.run(noYield) }); pk {
-				o = "PANIC " + key
-				c.Rec.Count("sequential_panics_seen(C01)", 1)
-				_ = text
-			}
-			e.golden[cl.key] = o
-			c.Rec.Eval(1)
-		}
-	}
 	gold := map[string]string{}
-	for _, gs := range calls {
-		for _, cl := range gs {
-			gold[cl.key] = e.golden[cl.key]
+	takeGoldens := func() {
+		runtime.GOMAXPROCS(old)
+		for _, gs := range calls {
+			for _, cl := range gs {
+				if _, ok := e.golden[cl.key]; !ok {
+					resetAll()
+					var o string
+					if pk, key, _ := core.Guard(func() { o = cl.run(noYield) }); pk {
+						o = "PANIC " + key
+						c.Rec.Count("sequential_panics_seen(C01)", 1)
+					}
+					e.golden[cl.key] = o
+					c.Rec.Eval(1)
+				}
+				gold[cl.key] = e.golden[cl.key]
+			}
 		}
-	}
-	if len(e.golden) > 20000 { // bound the cache (after this round's goldens were taken from it)
-		e.golden = map[string]string{}
+		if len(e.golden) > 20000 { // bound the cache (after this round's goldens were taken from it)
+			e.golden = map[string]string{}
+		}
 	}
 	// the round
 	resetAll()
@@ -293,6 +311,11 @@ func (e *C05) Run(c *core.Ctx, idx int) {
 	start := make(chan struct{})
 	var wg sync.WaitGroup
 	var mismatches atomic.Int64
+	type c05res struct{ got, panicKey, panicText string }
+	results := make([][]c05res, n)
+	for g := range results {
+		results[g] = make([]c05res, len(calls[g]))
+	}
 	c.SetPhase(fmt.Sprintf("round=%d goroutines=%d gomaxprocs=%d calls=%d", idx, n, procs, total))
 	for g := 0; g < n; g++ {
 		wg.Add(1)
@@ -314,19 +337,12 @@ func (e *C05) Run(c *core.Ctx, idx int) {
 				pk, key, text := core.Guard(func() { got = cl.run(yield) })
 				tr.end(cl, g*1000+k)
 				c.Rec.Eval(1)
-				want := gold[cl.key]
 				if pk {
 					got = "PANIC " + key
-					if got != want {
-						c.Rec.Violation("concurrent:"+key, fmt.Sprintf("%s panicked when run concurrently (%d goroutines, GOMAXPROCS %d) but not alone: %s", cl.key, n, procs, firstLineOf(text)), map[string]any{"call": cl.key, "panic": text})
-					}
+					results[g][k] = c05res{got: got, panicKey: key, panicText: text}
 					continue
 				}
-				if got != want {
-					mismatches.Add(1)
-					c.Rec.Violation("concurrent:"+cl.class, fmt.Sprintf("%s returns a different result when run concurrently (%d goroutines, GOMAXPROCS %d) than alone: %s", cl.key, n, procs, firstDiff(want, got)),
-						map[string]any{"call": cl.key, "alone": clipStr(want, 1500), "concurrent": clipStr(got, 1500), "goroutines": n, "gomaxprocs": procs})
-				}
+				results[g][k] = c05res{got: got}
 			}
 		}(g, yr)
 	}
@@ -361,6 +377,22 @@ wait:
 	}
 	if stuck {
 		return // leaked goroutines stay parked; later rounds still run
+	}
+	takeGoldens()
+	for g := range calls {
+		for k, cl := range calls[g] {
+			res, want := results[g][k], gold[cl.key]
+			if res.got == want {
+				continue
+			}
+			if res.panicKey != "" {
+				c.Rec.Violation("concurrent:"+res.panicKey, fmt.Sprintf("%s panicked when run concurrently (%d goroutines, GOMAXPROCS %d) but not alone: %s", cl.key, n, procs, firstLineOf(res.panicText)), map[string]any{"call": cl.key, "panic": res.panicText})
+				continue
+			}
+			mismatches.Add(1)
+			c.Rec.Violation("concurrent:"+cl.class, fmt.Sprintf("%s returns a different result when run concurrently (%d goroutines, GOMAXPROCS %d) than alone: %s", cl.key, n, procs, firstDiff(want, res.got)),
+				map[string]any{"call": cl.key, "alone": clipStr(want, 1500), "concurrent": clipStr(res.got, 1500), "goroutines": n, "gomaxprocs": procs})
+		}
 	}
 	tr.mu.Lock()
 	h := uint64(14695981039346656037)
